@@ -342,3 +342,56 @@ pub fn logical_for(ctx: &crate::obs::Ctx, label: &str, i: u64) -> Logical {
     l.tile_compression = ((i / 24) % 5) as u8;
     l
 }
+
+/// Library calls that FAIL, made on the calling thread right before a call under observation: whatever an error path
+/// leaves behind (scratch buffers, thread-locals, statics) must not show in the next call.
+/// `sample`: bytes of a valid archive (cut and damaged copies of it are opened), if there is one at hand.
+pub fn failing_calls_before(rng: &mut crate::rng::Rng, sample: Option<&[u8]>) {
+    use crate::obs::guard;
+    // 1. writes that fail part-way: into a stream that starts failing after a few operations, and into a too-small slice
+    let mut pm = PMTiles::new(pmtiles2::TileType::Png, pmtiles2::Compression::None);
+    pm.internal_compression = crate::gen::comp(R::CODECS[rng.usize(0, 3)]);
+    for k in 0..40u64 {
+        let _ = pm.add_tile(1000 + k * 3, vec![(k % 251) as u8 + 1; 5 + (k % 7) as usize]);
+    }
+    pm.meta_data.insert(String::from("left-behind"), Value::String(String::from("from a failed write")));
+    let mut sink = Inst::new(Vec::new());
+    sink.c.fail_from = Some(rng.range(1, 12));
+    let _ = guard(|| pm.to_writer(&mut sink));
+    // (no codec here: a sink that answers Ok(0) makes flate2's GzEncoder::write_header spin forever -- a zero-length
+    // transfer is outside C13's "transfers >= 1" and is not an error in the sense of C15, so it is not exercised with a codec)
+    let mut pm2 = PMTiles::new(pmtiles2::TileType::Png, pmtiles2::Compression::None);
+    pm2.internal_compression = pmtiles2::Compression::None;
+    for k in 0..40u64 {
+        let _ = pm2.add_tile(5000 + k, vec![0xEEu8; 9]);
+    }
+    let mut small = [0u8; 160];
+    let _ = guard(|| pm2.to_writer(&mut std::io::Cursor::new(&mut small[..])));
+    let d = pmtiles2::Directory::from(vec![pmtiles2::Entry { tile_id: 1, offset: 0, length: 0, run_length: 1 }]);
+    let _ = guard(|| d.to_writer(&mut Vec::new(), pmtiles2::Compression::GZip));
+    // 2. opens and parses that fail: cut / damaged copies of a valid archive
+    if let Some(b) = sample {
+        if let Ok(h) = R::header_unpack(b) {
+            let dir_end = (h.root_offset + h.root_length).max(h.leaf_offset + h.leaf_length) as usize;
+            for cut in [dir_end.saturating_sub(1), dir_end.saturating_sub(rng.usize(2, 40)), (h.root_offset + h.root_length / 2) as usize] {
+                if cut > 127 && cut < b.len() {
+                    let _ = guard(|| PMTiles::from_bytes(b[..cut].to_vec()).map(|p| p.num_tiles()));
+                }
+            }
+            if h.root_length > 4 {
+                let mut bad = b.to_vec();
+                let at = (h.root_offset + h.root_length - 2) as usize;
+                if at < bad.len() {
+                    bad[at] ^= 0x7f;
+                    let _ = guard(|| PMTiles::from_bytes(bad).map(|p| p.num_tiles()));
+                }
+                let (a, e) = (h.root_offset as usize, (h.root_offset + h.root_length) as usize);
+                if e <= b.len() && (1..=4).contains(&h.internal_compression) {
+                    let comp = crate::gen::comp(h.internal_compression);
+                    let _ = guard(|| pmtiles2::Directory::from_bytes(&b[a..e - 1], comp).map(|d| d.len()));
+                    let _ = guard(|| pmtiles2::util::decompress_all(comp, &b[a..e - 1]).map(|v| v.len()));
+                }
+            }
+        }
+    }
+}
